@@ -194,6 +194,9 @@ func (g *Grammar) levelShape(w *World, fn *ssa.Function) *Level {
 		}
 	})
 	if len(calls) == 0 {
+		if w.buildsOperatorNodes(g, fn) {
+			return g.levelShapeAI(w, fn)
+		}
 		return nil
 	}
 	lv := &Level{Fn: fn, Kind: "binary", Pos: fn.Pos()}
@@ -202,6 +205,9 @@ func (g *Grammar) levelShape(w *World, fn *ssa.Function) *Level {
 		if rc, ok := calls[0].Call.Args[2].(*ssa.Call); ok && rc.Call.StaticCallee() == g.NewOperand {
 			return g.unaryShape(w, fn, calls[0], rc)
 		}
+	}
+	if ai := g.levelShapeAI(w, fn); ai != nil {
+		return ai
 	}
 	for _, c := range calls {
 		left, right, op := c.Call.Args[1], c.Call.Args[2], c.Call.Args[0]
